@@ -48,6 +48,7 @@ func runLBStop(x *X) {
 	onErr := func(e *simrt.SchedError) {
 		x.Violate("C19", "C19/stop-blocked{"+e.Kind+"}", "%s", e.Error())
 		x.Violate("C12", "C12/"+e.Kind+"{lbstop}", "%s", e.Error())
+		x.Blocked(e, "lbstop")
 	}
 	var h *lbHarness
 	x.Do("setup", func() {
